@@ -358,6 +358,13 @@ func (e *kvElection) becomeLeader(token string, rev uint64) {
 	e.mu.Lock()
 	defer e.mu.Unlock()
 
+	// An acquisition that was in flight when Stop/StopWithContext ran may
+	// complete afterwards. A stopped election must never claim leadership:
+	// nothing would heartbeat the key or ever clear the claim again.
+	if e.ctx == nil || e.ctx.Err() != nil {
+		return
+	}
+
 	fromState := StateInit
 	if s := e.state.Load(); s != nil {
 		if str, ok := s.(string); ok {
